@@ -25,10 +25,10 @@ def oracle(rec):
     last = next((o for l, o in reversed(list(zip(rec["lines"], rec["impl"]))) if l.startswith("ftab ")), None)
     tabs = fol.parse_tab(last)
     contra = rec["impl"][-1] == "c 1"
-    if m["ground_contra"]:
-        return None          # contradictory ground theory: nothing is claimed
-    if contra:
+    if contra and not m["ground_contra"]:
         return {"problem": "the ground theory is consistent but first-order inference reports a contradiction"}
+    # with a contradictory ground theory only the ground instances that are NOT connected to a contradiction are compared
+    # (run_c02 leaves the others out of meta['ground'])
     for i, rows in tabs.items():
         for g, (lo, hi) in rows.items():
             gb = m["ground"].get(f"{i}:{g}")
@@ -53,7 +53,7 @@ def run(rep, tier, seed):
         nrows = sum(len(v) for v in tabs.values())
         hetero = any(len({tuple(v) for _, v in n["ops"] if v is not None}) > 1 for n in r["prog"]["kb"]["nodes"])
         rep.count_case(streams.canon(r["prog"]), nrows >= 4 and hetero and not r["meta"]["ground_contra"])
-        if not r["meta"]["ground_contra"]:
+        if True:
             for i, rows in tabs.items():
                 for g, (lo, hi) in rows.items():
                     gb = r["meta"]["ground"].get(f"{i}:{g}")
